@@ -8,7 +8,7 @@ import networkx as nx
 from fgutils.its import get_its, split_its, ITS
 from fgutils.parse import parse
 from fgutils.rdkit import graph_to_smiles, mol_smiles_to_graph
-from props.c09 import (rand_valid_mol, edit_bonds, make_smiles_case, make_reaction, add_derivation, rand_deriv,
+from props.c09 import (WIDE_SYMS, pick_syms, rand_valid_mol, edit_bonds, make_smiles_case, make_reaction, add_derivation, rand_deriv,
                        rand_aam_map, derive, graph_level_state, args_untouched)
 
 import contextlib
@@ -103,14 +103,14 @@ def rand_label(rng, kinds=("tuple", "tuple", "tuple", "list", "scalar")):
 
 
 def rand_its_graph(rng, nmax=8):
-    g = gens.rand_mol(rng, 1, nmax)
+    g = gens.rand_mol(rng, 1, nmax, syms=pick_syms(rng))
     kinds = rng.choice([("tuple",), ("tuple", "list"), ("tuple", "tuple", "list", "scalar"), ("list",), ("scalar", "tuple")])
     for u, v in g.edges:
         g[u][v]["bond"] = rand_label(rng, kinds)
     return g
 
 
-ATOMS = ["C", "C", "C", "N", "O", "S", "Cl", "c", "c", "n", "H", "Si", "R"]
+ATOMS = ["C", "C", "C", "N", "O", "S", "Cl", "c", "c", "c", "n", "n", "o", "s", "b", "p", "H", "Si", "R", "Br", "Sn"]
 
 
 def rand_pattern(rng, its=True):
@@ -464,11 +464,12 @@ def gen_resup(rng):
 
 
 def gen_its_split(rng):
-    g = gens.rand_mol(rng, 1, 8)
+    syms = pick_syms(rng)
+    g = gens.rand_mol(rng, 1, 8, syms=syms)
     h = gens.copy_exact(g)
     edit_bonds(rng, h, rng.choice([0, 1, 2, 3, 4]))
     if rng.random() < 0.1:
-        h.nodes[rng.choice(list(h.nodes))]["symbol"] = rng.choice(gens.HEAVY)
+        h.nodes[rng.choice(list(h.nodes))]["symbol"] = rng.choice(syms)
     ids, scheme = positive_ids(rng, g.number_of_nodes())
     m = dict(zip(list(g.nodes), ids))
     G = rebuild(rng, g, m, shuffle=True)
